@@ -239,9 +239,9 @@ func printings(n *model.Node, seed uint64) []string {
 	spaces := []string{" ", "  ", "\t", "\n", " \r\n ", ""}
 	comments := []string{"/* c */", "/**/", "/* a + b */", "/* ' */", "/*\n*/"}
 	rich := &model.PrintOptions{
-		Extra:    func() bool { return r.Chance(1, 6) },
-		Space:    func() string { return mon.Pick(r, spaces) },
-		Keyword:  kwCase,
+		Extra:   func() bool { return r.Chance(1, 6) },
+		Space:   func() string { return mon.Pick(r, spaces) },
+		Keyword: kwCase,
 		Comments: func() string {
 			if r.Chance(1, 8) {
 				return mon.Pick(r, comments)
